@@ -45,7 +45,8 @@ class Wb2CsrWorld(World):
         cw = rng.choice([8, 16, 32, 64])
         ww = rng.choice([w for w in (8, 16, 32, 64) if w >= cw])
         ratio = ww // cw
-        caw = rng.range(max(1, log2(ratio)) if not rng.chance(0.05) else 1, 8)
+        caw = rng.range(max(1, log2(ratio)) if not rng.chance(0.05) else 1,
+                        8 if not rng.chance(0.1) else 12)
         return {"cw": cw, "ww": ww, "caw": caw}
 
     def gen_ops(self, rng, config, prop):
